@@ -438,6 +438,8 @@ func c01(p *model.Prog, r *report.Result) {
 		pos := p.Pos(mk.Pos())
 		r.Check(good && dom, "C01.R6", fkey(mk, "copy", fname), pos, "out."+fname+" = in."+fname+" dominates every return", "out."+fname+" is not a plain copy of in."+fname+" on every path")
 	}
+	r.Rule("C01.R7", "nothing that outlives Group.OnReadRtmpAvMsg keeps a reference into the publisher's message buffer: every value stored into a long-lived object (GOP caches, merge writers, remuxers, recorders) on the way is a copy (interprocedural alias propagation from the msg parameter; expected count 0)")
+	retentionRule(p, r, "C01.R7", []retRoot{{p.Method("pkg/logic", "Group", "OnReadRtmpAvMsg"), 1}}, 40)
 }
 
 // guardedByAnyFresh: the instruction is inside some session's IsFresh==true region.
